@@ -15,7 +15,7 @@
   `Realloc s s' ptr np n total` : the first `n` bytes of `[np, …)` in `s'` equal those of `[ptr, …)`
   in `s`, and no byte of a chunk of `s` outside `[np, np+total)` changed.
 -/
-import BumpProof.Lemmas.MemEx
+import BumpProof.Lemmas.MemExLive
 
 namespace C02
 open Arena Rs
@@ -219,6 +219,31 @@ theorem grow_zeroed {cfg : Cfg} {s s1 s2 : State} {ptr oldSize np : Nat} {newL :
   · exact zeroRange_read_in hwf1 h2 (by omega) (by omega)
   · rw [zeroRange_read_out h2 (by omega)]; exact hr.frame a ha hin
 
+/-! ## Live blocks across whole operations of `stepCore` (uses the C01 invariant `LiveOK`) -/
+
+/-- `allocate` / `allocate_zeroed` (any path: fast, next chunk, new chunk, refused) leaves every byte of
+    every block that was live before untouched — also when the new block is zeroed.
+    Hypotheses as for `C01.stepCore_allocate`. -/
+theorem stepCore_allocate_keeps_live_bytes {cfg : Cfg} {g g' : GState} {L : Layout} {zeroed : Bool} {via : Via}
+    {out : Out}
+    (hl : LiveOK cfg g.s) (hwf : MemWF g.s) (hfr : HeadFresh g.s) (hp : CurPosOK cfg g.s)
+    (hv : C11.Valid cfg.up (bumpProps cfg g.s L Hints.custom))
+    (hvslow : ∀ t i' ct, SlowTry cfg g.s t i' ct → C11.Valid cfg.up (bumpProps cfg t L Hints.custom))
+    (h : stepCore cfg g (.allocate L zeroed via) = .ok (g', out))
+    {b : Block} (hb : b ∈ g.s.live) {k : Nat} (hk : k < b.size) :
+    readByte g'.s (b.addr + k) = readByte g.s (b.addr + k) :=
+  stepCore_allocate_keeps_bytes hl hwf hfr hp hv hvslow h hb hk
+
+/-- `deallocate` (through any wrapper) changes no byte at all -/
+theorem stepCore_deallocate_never_writes {cfg : Cfg} {g g' : GState} {b : Nat} {via : Via} {out : Out}
+    (h : stepCore cfg g (.deallocate b via) = .ok (g', out)) (a : Nat) : readByte g'.s a = readByte g.s a :=
+  readByte_congr (stepCore_deallocate_memOf h) a
+
+/-- leaving a scope changes no byte at all -/
+theorem stepCore_scopeExit_never_writes {cfg : Cfg} {g g' : GState} {out : Out}
+    (h : stepCore cfg g .scopeExit = .ok (g', out)) (a : Nat) : readByte g'.s a = readByte g.s a :=
+  readByte_congr (stepCore_scopeExit_memOf h) a
+
 /-! ## Non-vacuity: concrete states / inputs meeting the hypotheses (see `Lemmas/MemEx.lean`) -/
 
 section NonVacuity
@@ -260,6 +285,44 @@ example : ∃ s1 p s2, alloc cfgUp stUp { size := 8, align := 8 } = .ok (s1, .ok
 example : ∃ s1 np s2, grow cfgUp stUp 96 8 { size := 16, align := 1 } = .ok (s1, .ok np) ∧
     zeroRange cfgUp s1 (np + 8) (16 - 8) = .ok s2 := ⟨_, _, _, rfl, rfl⟩
 
+-- `stepCore_allocate_keeps_live_bytes`: hypotheses hold for a zeroed fast-path allocation and for an
+-- allocation that needs a new chunk; block 0 (`[96, 104)`) is live in both states
+example : LiveOK cfgUp stUp ∧ MemWF stUp ∧ HeadFresh stUp ∧ CurPosOK cfgUp stUp ∧
+    C11.Valid cfgUp.up (bumpProps cfgUp stUp L8 Hints.custom) ∧
+    (∀ t i' ct, SlowTry cfgUp stUp t i' ct → C11.Valid cfgUp.up (bumpProps cfgUp t L8 Hints.custom)) ∧
+    blk 96 ∈ stUp.live ∧
+    ∃ g' out, stepCore cfgUp { s := stUp, marks := [] } (.allocate L8 true .plain) = .ok (g', out) :=
+  ⟨stUp_liveOK, stUp_wf, stUp_fresh, stUp_curPosOK, exValidUp, stUp_noSlow, by simp [stUp], _, _, rfl⟩
+example : LiveOK cfgUp stUpR ∧ MemWF stUpR ∧ HeadFresh stUpR ∧ CurPosOK cfgUp stUpR ∧
+    C11.Valid cfgUp.up (bumpProps cfgUp stUpR L200 Hints.custom) ∧
+    (∀ t i' ct, SlowTry cfgUp stUpR t i' ct → C11.Valid cfgUp.up (bumpProps cfgUp t L200 Hints.custom)) ∧
+    blk 96 ∈ stUpR.live :=
+  ⟨stUpR_liveOK, stUpR_wf, stUpR_fresh, stUpR_curPosOK, exValidUpR, stUpR_slowValid, by simp [stUpR, stUp]⟩
+example : ∃ g' out, stepCore cfgUp { s := stUp, marks := [] } (.deallocate 0 .plain) = .ok (g', out) := ⟨_, _, rfl⟩
+example : ∃ g' out, stepCore cfgUp gScope .scopeExit = .ok (g', out) := ⟨_, _, rfl⟩
+
 end NonVacuity
+
+/-! ## Target -/
+
+/-- TARGET (NOT PROVED): C02 for whole operations — in every state satisfying the arena invariant
+    (an inductive `Inv`, as in `C01.liveOK_invariant_target`), a step that does not fault leaves every byte of every
+    block that stays live (and is not the target of a `.write`) unchanged.
+    Proved: the memory-function level (`writeRange`, `copyBytes`, `zeroRange`), `… never_writes` for all
+    non-reallocating model functions, `Realloc` for all six reallocating model functions,
+    `allocate_zeroed`, `grow_zeroed`, and the `stepCore` level for `.allocate`, `.deallocate`, `.scopeExit`.
+    Missing: the `stepCore` level for `.grow`, `.shrink`, `.shrinkSlice`, `.commit`, `.commitSlice`,
+    `.allocTryWith` (needs C01 for those operations: the new block is disjoint from the other live
+    blocks, so that `Realloc.frame` applies to them) and `.write`/`.fillPrepared` (the written block is
+    disjoint from the others — immediate from `LiveOK.disjoint` and `writeRange_outside`). -/
+def live_bytes_preserved_target : Prop :=
+  ∃ Inv : Cfg → GState → Prop,
+    (∀ cfg, Inv cfg { s := initState cfg, marks := [] }) ∧
+    (∀ cfg g op resps g' out reqs, Inv cfg g → RespsSane cfg g.s resps →
+      step cfg g op resps = .ok (g', out, reqs) → Inv cfg g') ∧
+    (∀ cfg g op resps g' out reqs, Inv cfg g → RespsSane cfg g.s resps →
+      step cfg g op resps = .ok (g', out, reqs) →
+      ∀ b ∈ g.s.live, b ∈ g'.s.live → (∀ seed, op ≠ .write b.id seed) →
+        ∀ k, k < b.size → readByte g'.s (b.addr + k) = readByte g.s (b.addr + k))
 
 end C02
